@@ -3,7 +3,7 @@
 # (property = first three characters of the file name, case-insensitive; "-revert-" files of another property's fix are named for the
 # property that catches them).  Prints one line per patch: CAUGHT / MISSED / PATCH-FAILED / INCONCLUSIVE.
 P=${1:-3}; PAT=${2:-}
-cd /verif
+cd "$(dirname "$(readlink -f "$0")")/.."
 ls tools/mutants/*.patch | grep -i "${PAT}" | xargs -P $P -I{} sh -c '
 f={}; b=$(basename $f .patch); c=$(echo $b | cut -c1-3 | tr a-z A-Z)
 out=$(tools/run_mutant.sh $f $c 2>&1); rc=$?
